@@ -119,6 +119,31 @@ def _oracle(args):
     # attachment eIds: att_<k> in document order among siblings
     return ('ok', None, n)
 
+def _ns_oracle(args):
+    """the same text converted by a generator built for another Akoma Ntoso namespace (XmlGenerator(uri, prefix, maker=get_maker('2.0'))):
+    components, their work URIs, names and title aliases are the same document with the other namespace URI"""
+    uri, root, prefix, text = args[:4]
+    from lxml import etree
+    from bluebell.xml import XmlGenerator
+    from bluebell.parser import AkomaNtosoParser
+    from cobalt import FrbrUri
+    from cobalt.akn import get_maker, AKN_NAMESPACES
+    import re
+    try:
+        a = AkomaNtosoParser(FrbrUri.parse(uri), prefix).parse_to_xml(text, root)
+        p2 = AkomaNtosoParser(FrbrUri.parse(uri), prefix)
+        p2.generator = XmlGenerator(FrbrUri.parse(uri), prefix, maker=get_maker('2.0'))
+        b = p2.parse_to_xml(text, root)
+    except Exception as e:
+        return ('raised', impl.exc_kind(e))
+    dm = lambda t: re.sub(r'date="\d{4}-\d{2}-\d{2}"', 'date="D"', t)
+    sa = dm(etree.tostring(a, encoding='unicode'))
+    sb = dm(etree.tostring(b, encoding='unicode')).replace(AKN_NAMESPACES['2.0'], AKN_NAMESPACES['3.0'])
+    if sa != sb:
+        i = next((i for i in range(min(len(sa), len(sb))) if sa[i] != sb[i]), min(len(sa), len(sb)))
+        return ('bad', 'with the AKN 2.0 maker the document differs beyond its namespace: 3.0 ...%s | 2.0 ...%s' % (sa[max(0, i - 80):i + 100], sb[max(0, i - 80):i + 100]))
+    return ('ok', None)
+
 def correspondence(ctx):
     cs = []
     for _ in range(ctx.n(500, 30000)):
@@ -141,6 +166,11 @@ def search(ctx, budget):
             ctx.failures.append((dict({'stage': 'e2e', 'uri': c[0], 'root': c[1], 'prefix': c[2], 'text': c[3]}, **({'history': c[4]} if len(c) > 4 else {})), r[1]))
         elif r[0] == 'ok' and r[2] >= 2:
             ctx.nontrivial((c[0], c[1], c[3]))
+    nj = [c[:4] for c in cs if len(c) == 4][::4]
+    for c, r in zip(nj, impl.pmap(_ns_oracle, nj, chunk=8)):
+        ctx.evaluations += 1; ctx.count('other_namespace_' + r[0])
+        if r[0] == 'bad':
+            ctx.failures.append(({'stage': 'namespace', 'uri': c[0], 'root': c[1], 'prefix': c[2], 'text': c[3]}, r[1]))
     ctx.sample({'uri': cs[0][0], 'root': cs[0][1], 'text': cs[0][3]})
 
 def probe_disagreement(ctx, stage, case):
@@ -154,6 +184,8 @@ def replay(obj):
     case = obj.get('case') or (obj.get('disagreements') or [{}])[0].get('case')
     if not case:
         print('nothing to replay:', obj.get('broken_obligations')); return 1
+    if case.get('stage') == 'namespace':
+        r = _ns_oracle((case['uri'], case['root'], case['prefix'], case['text'])); print(r); return 1 if r[0] == 'bad' else 0
     ok = stages.replay_stage(case)
     r = _oracle((case['uri'], case['root'], case['prefix'], case['text']) + ((case['history'],) if case.get('history') else ())); print('oracle:', r)
     return 1 if (r[0] == 'bad' or ok is False) else 0
